@@ -38,13 +38,14 @@ CONFIGS = {
                  features="alloc,omnes"),
     "x86": dict(target="i686-unknown-linux-gnu", build_std=True, no_default=True,
                 features="alloc,omnes"),
+    "x64-bench": dict(features="gls254bench"),
     "x64-dev": dict(dev_profile=True),
     "witness": dict(witness=True),
 }
 
 QUICK_CONFIGS = ["x64", "x64-w32", "x64-m51", "x64-tf"]
 THOROUGH_CONFIGS = ["x64", "x64-tf", "x64-w32", "x64-m51", "x64-clmul", "x64-zz32",
-                    "x64-nostd", "a64", "rv64", "x86"]
+                    "x64-nostd", "x64-bench", "a64", "rv64", "x86"]
 
 
 def _sysroot():
